@@ -591,6 +591,12 @@ theorem source_transform_plain_eq_model : @Gen.transformPlain = @transform := rf
 /-- … so the two builds of the source compute the same expression -/
 theorem source_transform_builds_agree : @Gen.transform = @Gen.transformPlain := rfl
 
+/-- neither build of `transform` returns early: there is no condition in front of the formula (the translator turns
+    `if transform.is_identity() { return; }` and the like into a guarded arm over `Num`, reading the predicate's body from
+    the source; such a `Gen.transform` takes an extra argument and `source_transform_eq_model` no longer type-checks) -/
+theorem source_transform_has_no_early_return : Gen.transformGuards = 0 ∧ Gen.transformPlainGuards = 0 :=
+  ⟨rfl, rfl⟩
+
 /-- both conversions of the source map the coefficients as the model does -/
 theorem source_conversions_eq_model : @Gen.toK = @toK ∧ @Gen.ofK = @ofK := ⟨rfl, rfl⟩
 
